@@ -71,6 +71,12 @@ SUITES["config"] = dict(
     batches={"quick": 8, "thorough": 16}, timeout={"quick": 400, "thorough": 3000},
 )
 
+SUITES["idgen"] = dict(
+    test="TestIdGen", coq_module="Cases.WireCase", case_type="id_case", eval="eval_id_case",
+    cols=["diff", "mon_c16_unique", "nt_c16"],
+    batches={"quick": 3, "thorough": 5}, timeout={"quick": 300, "thorough": 1200},
+)
+
 PROPS = {
     "C09": dict(
         props_file="Props/C09.v",
@@ -116,7 +122,10 @@ PROPS["C07"] = dict(
 PROPS["C08"] = dict(
     props_file="Props/C08.v",
     suites=[dict(suite="breaker", corr=["diff"], monitors=["mon_recover"],
-                 classifiers={"lockout-max-lt-success": "cls_lockout"}, nontrivial="nt_c08")],
+                 classifiers={"lockout-max-lt-success": "cls_lockout"}, nontrivial="nt_c08"),
+            # notifications never block request processing: decided on the balancer (its callback is the one installed in production);
+            # a hang is caught by the watchdog and reported with the history that caused it
+            dict(suite="lbseq", corr=["diff_begin"], monitors=["mon_c03_recover"], classifiers={}, nontrivial="nt_c07")],
     rule="every breaker history is followed by the recovery script (end in-flight requests, wait > timeout, success_threshold "
          "successful requests); non-trivial = the breaker is not CLOSED when the script starts; distinct = by hash of the case term",
     level_text="Theorem: from every state reachable by any history of overlapping requests, after in-flight requests end, waiting "
@@ -338,12 +347,14 @@ PROPS["C16"] = dict(
     props_file="Props/C16.v",
     suites=[dict(suite="wire", corr=["diff_fwd", "diff_resp"],
                  monitors=["mon_c16_present", "mon_c16_equal", "mon_c16_echo", "mon_c16_fresh", "mon_c16_disabled"],
-                 classifiers={}, nontrivial="nt_c16")],
+                 classifiers={}, nontrivial="nt_c16"),
+            dict(suite="idgen", corr=[], monitors=["mon_c16_unique"], classifiers={}, nontrivial="nt_c16")],
     rule="same runs as C01: default and custom header names (also with surrounding blanks in the configuration), both features on/off "
          "independently, 12 client-supplied values (empty, blanks, padded, NBSP / EM SPACE edges, 200 chars, punctuation, two values), "
          "backends that set an ID header themselves or send 103 Early Hints first, and every response path: proxied, custom-auth 401, "
          "size_limit 413, limiter 429, no healthy backend 503; every generated ID of a run is checked for its format and for "
-         "duplicates; non-trivial = client-supplied ID, a non-proxied path or custom names; distinct = by case hash",
+         "duplicates; idgen: 50 000 - 200 000 IDs generated by 1 / 8 / 64 goroutines through the real middleware within well under a second, "
+         "all required well-formed and pairwise distinct; non-trivial = client-supplied ID, a non-proxied path or custom names; distinct = by case hash",
     level_text="Theorems over the model for every configuration, chain, balancer phase and request: the ID header is pre-set with one "
                "value on every response path and survives the backend's response incl. interim responses; that value is the client's "
                "trimmed one when non-blank, else a generated one; the backend sees exactly that value; a disabled feature leaves request and "
